@@ -581,7 +581,7 @@ def run_check(pid, tier, seed, replay=None):
                 write_evidence(mod, tier, seed, result, t0)
             except Exception as e:  # evidence must never mask the verdict
                 print('EVIDENCE-ERROR: %s' % e)
-    if os.environ.get('VERIF_LINECOV_DIR', '').startswith(os.path.join(__import__('tempfile').gettempdir(), 'verif-linecov-')):
+    if os.path.basename(os.environ.get('VERIF_LINECOV_DIR', '')).startswith('verif-linecov-'):
         __import__('shutil').rmtree(os.environ.pop('VERIF_LINECOV_DIR'), ignore_errors=True)
     for l in lines:
         print(l)
@@ -605,7 +605,19 @@ def main():
         sys.exit(setup())
     if not args.prop:
         ap.error('property id required')
-    sys.exit(run_check(args.prop.upper(), args.tier, args.seed, args.replay))
+    # every temporary file of this run (the worker processes of the pool are terminated without running their atexit handlers) lives in
+    # one private directory that is removed when the check ends
+    import shutil
+    import tempfile
+    scratch = tempfile.mkdtemp(prefix='verif-run-')
+    os.environ['TMPDIR'] = scratch
+    tempfile.tempdir = scratch
+    try:
+        rc = run_check(args.prop.upper(), args.tier, args.seed, args.replay)
+    finally:
+        tempfile.tempdir = None
+        shutil.rmtree(scratch, ignore_errors=True)
+    sys.exit(rc)
 
 
 if __name__ == '__main__':
